@@ -32,8 +32,48 @@ FIXED = [
     ("Man(a1-3)1,6-Anhydro-Glc", "anhydro-parent"), ("Glc6Ole(a1-4)Glc", "backslash-child"),
     ("Man(a1-3)[Man(a1-6)]Man(b1-4)GlcNAc(b1-4)GlcNAc", "n-glycan-core"), ("Neu5Ac(a2-3)Gal(b1-4)Glc", "ketose-child"),
     ("Gal(b1-3)3,6-Anhydro-Gal", "anhydro-parent"), ("Fruf(b2-1)Glc", "sucrose-type"), ("Man(a1-2)GlcN", "n-link"),
-    ("Glc(a1-4)Man(a1-3)1,6-Anhydro-Glc", "anhydro-parent-deep"), ("Gal(b1-4)[Fuc(a1-3)]GlcNAc(b1-2)Man(a1-3)2,6-Anhydro-Man", "anhydro-parent-deep"),
+    ("Glc(a1-4)Man(a1-3)1,6-Anhydro-Glc", "anhydro-parent-deep"), ("Gal(b1-4)[Fuc(a1-3)]GlcNAc(b1-2)Man(a1-3)1,6-Anhydro-Man", "anhydro-parent-deep"),
+    # bicyclic parents substituted at every free position, alone and together, and below / above other residues
+    ("Man(a1-2)1,6-Anhydro-Glc", "anhydro-parent"), ("Man(a1-4)1,6-Anhydro-Glc", "anhydro-parent"),
+    ("Man(a1-2)[Gal(b1-3)][Glc(a1-4)]1,6-Anhydro-Glc", "anhydro-parent-wide"), ("Gal(b1-4)1,6-Anhydro-Man", "anhydro-parent"),
+    ("Man(a1-2)3,6-Anhydro-Glc(b1-4)Glc", "anhydro-inner"), ("Glc(b1-2)3,6-Anhydro-Gal(b1-4)1,6-Anhydro-Glc", "anhydro-nested"),
+    ("Neu5Ac(a2-3)1,6-Anhydro-Gal", "anhydro-parent-ketose-child"), ("Gal(b1-2)3,6-Anhydro-Gal(a1-3)Gal", "anhydro-inner"),
+    ("Glc(a1-2)[Glc(a1-3)][Glc(a1-4)][Glc(a1-6)]Glc", "four-children"), ("Man(a1-2)[Man(a1-3)][Man(a1-4)][Man(a1-6)]Man(b1-4)GlcNAc", "four-children"),
+    ("GlcNAc(b1-2)GlcN", "n-link"), ("Gal(b1-4)GlcNAc(b1-2)ManN", "n-link-deep"), ("Fuc(a1-2)[Gal(b1-4)]GlcN", "n-link-and-o-link"),
 ]
+
+
+def parse_full(s):
+    """tree of a glycan written in full notation with plain residue names (inverse of gen.render)"""
+    i = len(s)
+    while i > 0 and s[i - 1] not in ")]":
+        i -= 1
+    name, rest = s[i:], s[:i]
+    kids = []
+
+    def split_link(x):
+        assert x.endswith(")")
+        j = x.rindex("(")
+        body = x[j + 1:-1]
+        c, p = body[1:].split("-")
+        return x[:j], {"anomer": body[0], "cpos": int(c) if c.isdigit() else c, "ppos": int(p) if p.isdigit() else p}
+    sides = []
+    while rest.endswith("]"):
+        depth, j = 0, len(rest) - 1
+        while True:
+            depth += 1 if rest[j] == "]" else -1 if rest[j] == "[" else 0
+            if depth == 0:
+                break
+            j -= 1
+        inner, rest = rest[j + 1:-1], rest[:j]
+        g, l = split_link(inner)
+        sides.insert(0, (l, parse_full(g)))
+    if rest:
+        g, l = split_link(rest)
+        kids = sides + [(l, parse_full(g))]
+    else:
+        kids = sides
+    return gen.T(name, kids)
 
 
 def judge(rep, case, o):
@@ -70,7 +110,12 @@ def run(rep, tier, driver):
     rep.extra["residues_numbering_checked"] = len(cv.names) + len(cv.root_only) + len(cv.divergent)
     cases = build_cases(tier, rng, cv)
     for s, tag in FIXED:
-        cases.append({"iupac": s, "tree": None, "tag": "fixed-" + tag, "size": 3, "width": 1})
+        try:
+            ft = parse_full(s)
+            assert gen.render(ft, "full") == s
+            cases.append({"iupac": s, "tree": ft.to_json(), "root_suffix": "", "tag": "fixed-" + tag, "size": ft.size(), "depth": ft.depth(), "width": ft.max_width(), "fixed": True})
+        except Exception:
+            cases.append({"iupac": s, "tree": None, "tag": "fixed-" + tag, "size": 3, "width": 1})
     rep.rule = ("random well-formed glycan trees (2-60 residues, <=4 substituents, O- and N-links, ketose/furanose/anhydro/amino residues with "
                 "modifications) in full notation, root a/b/undefined; Spec = RDKit molzip join of the residues converted alone at positions "
                 "found by a chemistry-level carbon numbering; non-trivial = distinct glycan with non-empty result and applicable Spec")
@@ -83,6 +128,10 @@ def run(rep, tier, driver):
             if o["kind"] != "ok" or not o.get("smiles") or o.get("validity"):
                 rep.violation("input", {"iupac": c["iupac"]}, {"result": o.get("smiles"), "exc": o.get("exc"), "validity": o.get("validity")},
                               "non-empty valid molecule", key="fixed:" + c["iupac"])
+            continue
+        if c.get("fixed") and (o["kind"] != "ok" or not o.get("smiles") or o.get("validity")):
+            rep.violation("input", {"iupac": c["iupac"]}, {"result": o.get("smiles"), "exc": o.get("exc"), "validity": o.get("validity")},
+                          "non-empty valid molecule", key="fixed:" + c["iupac"])
             continue
         judge(rep, c, o)
     merge_correspondence(rep, tier, driver, cases, outs)
